@@ -1249,6 +1249,8 @@ package mast
 //@ ensures nilroot [C13] (=> (and (not (isNil (Mast.persist H0 m))) (isNil (Mast.root H0 m))) (and (= err anil) (= result0 "") (= (Mast.root H m) (Mast.root H0 m)) (NodesSame H0 H W0) (= (G.durable H) (G.durable H0))))
 //@ ensures ok [C03 C13] (=> (and (= err anil) (not (isNil (Mast.root H0 m))) (not (= result0 ""))) (and (= (Mast.root H m) (strAny result0)) (G.waited H)))
 //@ ensures fail [C03 C12] (=> (isErr err) (= (Mast.root H m) (Mast.root H0 m)))
+// persisting a tree whose top node is clean and already has a name writes nothing and returns that name
+//@ ensures cleanroot [C13] (=> (and (not (isNil (Mast.persist H0 m))) (isPtr (Mast.root H0 m)) (not (mastNode.dirty H0 (a.val (Mast.root H0 m)))) (not (= (mastNode.source H0 (a.val (Mast.root H0 m))) 0)) (not (and (= (nlinks H0 (a.val (Mast.root H0 m))) 1) (isNil (LinkAt H0 (a.val (Mast.root H0 m)) 0)))) (or (not (isNil (Mast.zeroKey H0 m))) (Mast.unmarshalerUsesRegisteredTypes H0 m)) (or (not (isNil (Mast.zeroValue H0 m))) (Mast.unmarshalerUsesRegisteredTypes H0 m))) (and (= err anil) (= (G.durable H) (G.durable H0)) (= result0 (deref.Bytes H0 (mastNode.source H0 (a.val (Mast.root H0 m)))))))
 //@ ensures sharedclean [C02 C11 C13] (SharedClean H)
 //@ loop 1 invariant gate (and (<= 0 i) (= (Mast.root H m) (Mast.root H0 m)))
 
@@ -1262,3 +1264,5 @@ package mast
 //@ ensures fields [C04 C05] (=> (= err anil) (and (> result0 W0) (= (Root.Size H result0) (Mast.size H0 m)) (= (Root.Height H result0) (Mast.height H0 m)) (= (Root.BranchFactor H result0) (Mast.branchFactor H0 m)) (= (Root.NodeFormat H result0) (Mast.nodeFormat H0 m))))
 //@ ensures link [C03 C05 C13] (=> (= err anil) (and (=> (isNil (Mast.root H0 m)) (= (Root.Link H result0) 0)) (=> (not (= (Root.Link H result0) 0)) (= (Mast.root H m) (strAny (deref.Bytes H (Root.Link H result0)))))))
 //@ ensures fail [C03 C12] (=> (isErr err) (and (= result0 0) (= (Mast.root H m) (Mast.root H0 m))))
+// a version that is still the persisted one (clean, named top node) is returned again without a single write
+//@ ensures cleanroot [C13] (=> (and (not (isNil (Mast.persist H0 m))) (isPtr (Mast.root H0 m)) (not (mastNode.dirty H0 (a.val (Mast.root H0 m)))) (not (= (mastNode.source H0 (a.val (Mast.root H0 m))) 0)) (not (and (= (nlinks H0 (a.val (Mast.root H0 m))) 1) (isNil (LinkAt H0 (a.val (Mast.root H0 m)) 0)))) (or (not (isNil (Mast.zeroKey H0 m))) (Mast.unmarshalerUsesRegisteredTypes H0 m)) (or (not (isNil (Mast.zeroValue H0 m))) (Mast.unmarshalerUsesRegisteredTypes H0 m))) (and (= err anil) (= (G.durable H) (G.durable H0))))
